@@ -1570,3 +1570,17 @@ Proof.
   - exists (h_view (run_hst ops body)). apply handler_reads_prefix.
   - apply handler_readall_exact.
 Qed.
+
+(* a non-trivial instance of the guards of the pass-through theorems: buffered response, ProcessPartial
+   limit crossed in the middle of a chunk, flushes, ReadFrom, request body above its limit *)
+Definition ex_cfg : config :=
+  mkcfg EOn true 3 Partial true 5 Partial [str "text/plain"%string] None (fun _ => None) (fun _ _ => None) (fun _ _ _ => None).
+Definition ex_ops : list hop :=
+  [HSet K_CT (str "text/plain"%string); HSet (str "X-A"%string) [97]; HRead 2; HReadAll; HWriteHeader 201;
+   HWrite [1; 2; 3]; HFlush; HReadFrom [[4; 5; 6]; [7]]; HWrite []; HFlush; HWrite [8]].
+Example passthrough_guard_example :
+  no_late_headers ex_ops = true /\ no_status_after_info ex_ops = true /\ no_own_cl ex_ops = true /\
+  let r := wrap_handler ex_cfg true [10; 11; 12; 13; 14] ex_ops in
+  r_intr r = None /\ r_read r = [10; 11; 12; 13; 14] /\
+  cl_status (client_of true (r_ds r)) = 201 /\ cl_body (client_of true (r_ds r)) = [1; 2; 3; 4; 5; 6; 7; 8].
+Proof. repeat split; reflexivity. Qed.
